@@ -650,6 +650,42 @@ func init() {
 	ghostStateFuncs["held"] = func(e *Env, a []EVal) EVal {
 		return EVal{T: Ge(e.u.ghostGet(e.st, "held", SInt, a[0].T), IntLit(1))}
 	}
+	theIter := func(e *Env) *IterState {
+		if e.fr == nil {
+			efail("iter_*: no frame")
+		}
+		var found *IterState
+		n := 0
+		for _, it := range e.fr.IterOf {
+			if !it.IsString {
+				found = it
+				n++
+			}
+		}
+		if n != 1 {
+			efail("iter_*: the function must have exactly one active map iterator (has %d)", n)
+		}
+		return found
+	}
+	ghostStateFuncs["iter_count"] = func(e *Env, a []EVal) EVal { return EVal{T: theIter(e).Count} }
+	ghostStateFuncs["iter_key"] = func(e *Env, a []EVal) EVal {
+		it := theIter(e)
+		if it.LastKey.IsZeroTerm() {
+			efail("iter_key: no key yielded yet")
+		}
+		return EVal{T: it.LastKey, Ty: it.MapType.Key()}
+	}
+	ghostStateFuncs["iter_visited"] = func(e *Env, a []EVal) EVal {
+		it := theIter(e)
+		return EVal{T: Select(it.Visited, a[0].T, SBool, nil)}
+	}
+	ghostStateFuncs["backing"] = func(e *Env, a []EVal) EVal {
+		return EVal{T: App("aobj", SV, App("sptr", SV, a[0].T))}
+	}
+	ghostStateFuncs["fresh_backing"] = func(e *Env, a []EVal) EVal {
+		// the slice's backing array was allocated after the function was entered
+		return EVal{T: Gt(App("aid", SInt, App("aobj", SV, App("sptr", SV, a[0].T))), IntLit(int64(e.freshLo)))}
+	}
 	ghostStateFuncs["wg_count"] = func(e *Env, a []EVal) EVal {
 		return EVal{T: e.u.ghostGet(e.st, "wg", SInt, a[0].T)}
 	}
